@@ -41,9 +41,11 @@ MIN = {'evaluations': 400, 'upgrade_runs': 100, 'convert_runs': 100, 'generator_
        'long_text_equal_default_rules': 40, 'long_text_decisions_compared': 25000}
 ANCHORS = ['oslo_policy.generator:_convert_policy_json_to_yaml', 'oslo_policy.generator:_upgrade_policies',
            'oslo_policy.generator:_generate_policy', 'oslo_policy.generator:_list_redundant',
-           'oslo_policy.generator:upgrade_policy', 'oslo_policy.generator:convert_policy_json_to_yaml']
-REQUIRED_ANCHORS = ['oslo_policy.generator:_upgrade_policies', 'oslo_policy.generator:_convert_policy_json_to_yaml',
-                    'oslo_policy.generator:_generate_policy', 'oslo_policy.generator:_list_redundant']
+           'oslo_policy.generator:upgrade_policy', 'oslo_policy.generator:convert_policy_json_to_yaml',
+           'oslo_policy.generator:generate_policy', 'oslo_policy.generator:list_redundant']
+# only the public console entry points are REQUIRED (a refactoring may keep a private helper's name and route around it)
+REQUIRED_ANCHORS = ['oslo_policy.generator:upgrade_policy', 'oslo_policy.generator:convert_policy_json_to_yaml',
+                    'oslo_policy.generator:generate_policy', 'oslo_policy.generator:list_redundant']
 N = {'quick': 600, 'thorough': 60000}
 
 ROLES = ['a', 'b', 'c', 'd']
